@@ -2,15 +2,18 @@ package main
 
 // C17 — generated redirects stay on the same host.
 //
-// Real code: middleware.AddTrailingSlashWithConfig / RemoveTrailingSlashWithConfig (e.Pre),
-// Echo.Static and Group.Static over a real directory tree, all through e.ServeHTTP.
-// Model: lean/EchoModel/C17.lean (addSlash, removeSlash, staticDir).
+// Real code: middleware.AddTrailingSlash / RemoveTrailingSlash and their ...WithConfig forms
+// (e.Pre), Echo.Static / StaticFS, Group.Static / StaticFS and echo.StaticDirectoryHandler over a
+// real directory tree (or the same tree as fstest.MapFS), mounted below literal prefixes, at
+// the root and below path parameters, all through e.ServeHTTP.
+// Model: lean/EchoModel/C17.lean (runReq: slashMw, staticHandler, preStatic).
 // Oracle: c17Browser — a WHATWG-style reading of the Location value, written here in Go and
 // independent of the model (the model prints its own verdict too, so both are compared).
 
 import (
 	"encoding/json"
 	"fmt"
+	"io/fs"
 	"math/rand"
 	"net/http"
 	"net/http/httptest"
@@ -19,6 +22,7 @@ import (
 	"path/filepath"
 	"strings"
 	"sync"
+	"testing/fstest"
 	"time"
 
 	"github.com/labstack/echo/v4"
@@ -60,9 +64,14 @@ type c17Case struct {
 	Path    a2bstr `json:"path"`             // request URL.Path (decoded)
 	RawPath a2bstr `json:"raw_path"`         // request URL.RawPath ("" = none)
 	Query   a2bstr `json:"query"`            // request URL.RawQuery
-	Group   string `json:"group"`            // gstatic: group prefix
-	Prefix  string `json:"prefix"`           // static/gstatic: pathPrefix argument of Static
+	Group   string `json:"group"`            // gstatic: group prefix (may contain path parameters: "/:site")
+	Prefix  string `json:"prefix"`           // static/gstatic: pathPrefix argument of Static (may contain path parameters)
 	Tree    int    `json:"tree"`             // static/gstatic: which directory tree
+	// round 4: the other public entry points
+	Ctor    string `json:"ctor,omitempty"`    // slash middleware: "" = ...WithConfig{RedirectCode: Code}, "plain" = AddTrailingSlash() / RemoveTrailingSlash()
+	Skip    int    `json:"skip,omitempty"`    // slash middleware Skipper: 0 nil | 1 middleware.DefaultSkipper | 2 always skips | 3 skips paths containing "example"
+	Variant string `json:"variant,omitempty"` // static route: "" Static(dir) | fs StaticFS(os.DirFS) | subfs StaticFS(MustSubFS) | mapfs StaticFS(fstest.MapFS) | handler GET(StaticDirectoryHandler(fs,false)) | raw Add(GET, StaticDirectoryHandler(fs,true)) | rel Static(dir relative to the working directory)
+	Pre     string `json:"pre,omitempty"`     // static route: "" | add | remove — that slash middleware (Ctor, Skip, Code) under e.Pre in front of the route
 }
 
 // ---------- the directory trees served by the static cases ----------
@@ -152,6 +161,62 @@ func c17Cleanup() {
 	}
 }
 
+// c17MapFS is the same tree as an in-memory fs.FS (for StaticFS)
+func c17MapFS(ti int) fs.FS {
+	t := c17Trees[ti]
+	m := fstest.MapFS{}
+	for _, d := range t.dirs {
+		if d != "." {
+			m[d] = &fstest.MapFile{Mode: fs.ModeDir | 0o755}
+		}
+	}
+	for _, f := range t.files {
+		m[f] = &fstest.MapFile{Data: []byte("marker " + f + "\n"), Mode: 0o644}
+	}
+	return m
+}
+
+// c17Skips: what the Skipper of the case answers for a request path
+func c17Skips(skip int, path string) bool {
+	switch skip {
+	case 2:
+		return true
+	case 3:
+		return strings.Contains(path, "example")
+	}
+	return false
+}
+
+// c17Slash builds the slash middleware of a case and the tokens that describe it to the model
+// (`A|D plain skip code`); effCode is the RedirectCode the middleware really works with.
+func c17Slash(kind string, c *c17Case, path string) (mw echo.MiddlewareFunc, toks string, effCode int, skipped bool) {
+	k := "A"
+	if kind == "remove" {
+		k = "D"
+	}
+	if c.Ctor == "plain" {
+		mw = middleware.AddTrailingSlash()
+		if kind == "remove" {
+			mw = middleware.RemoveTrailingSlash()
+		}
+		return mw, wJoin(k, wBool(true), wBool(false), wInt(0)), 0, false
+	}
+	cfg := middleware.TrailingSlashConfig{RedirectCode: c.Code}
+	switch c.Skip {
+	case 1:
+		cfg.Skipper = middleware.DefaultSkipper
+	case 2, 3:
+		sk := c.Skip
+		cfg.Skipper = func(ctx echo.Context) bool { return c17Skips(sk, ctx.Request().URL.Path) }
+	}
+	mw = middleware.AddTrailingSlashWithConfig(cfg)
+	if kind == "remove" {
+		mw = middleware.RemoveTrailingSlashWithConfig(cfg)
+	}
+	skipped = c17Skips(c.Skip, path)
+	return mw, wJoin(k, wBool(false), wBool(skipped), wInt(c.Code)), c.Code, skipped
+}
+
 // ---------- the model-free oracle: how a browser reads a Location value ----------
 
 // c17Browser applies the preprocessing of the WHATWG URL parser (strip leading and trailing
@@ -230,24 +295,29 @@ func c17Run(ci any) (res Result) {
 	nextRan, nextPath, nextURI := false, "", ""
 	routed, param := false, ""
 
+	effCode, skipped := c.Code, false
 	switch c.Comp {
 	case "add", "remove":
-		cfg := middleware.TrailingSlashConfig{RedirectCode: c.Code}
-		mw := middleware.AddTrailingSlashWithConfig(cfg)
-		k := "A"
-		if c.Comp == "remove" {
-			mw = middleware.RemoveTrailingSlashWithConfig(cfg)
-			k = "D"
-		}
+		mw, toks, ec, sk := c17Slash(c.Comp, c, path)
+		effCode, skipped = ec, sk
 		e.Pre(mw, func(next echo.HandlerFunc) echo.HandlerFunc {
 			return func(ctx echo.Context) error { // stands for "router + handler"
 				nextRan, nextPath, nextURI = true, ctx.Request().URL.Path, ctx.Request().RequestURI
 				return ctx.NoContent(http.StatusOK)
 			}
 		})
-		ops = wJoin(k, wInt(c.Code), wStr(path), wStr(qs), wStr(c17ReqURI))
-		if c.Code == 0 {
+		ops = wJoin("M", toks, wStr(path), wStr(qs), wStr(c17ReqURI))
+		if effCode == 0 {
 			tags = append(tags, "forward-mode")
+		}
+		if c.Ctor == "plain" {
+			tags = append(tags, "ctor:plain("+c.Comp+")")
+		}
+		if c.Skip != 0 && c.Ctor != "plain" {
+			tags = append(tags, fmt.Sprintf("skipper:%d", c.Skip))
+		}
+		if skipped {
+			tags = append(tags, "skipped")
 		}
 	case "static", "gstatic":
 		root, err := c17Roots()
@@ -266,6 +336,13 @@ func c17Run(ci any) (res Result) {
 		if !strings.HasPrefix(route, "/") { // the router registers "*" as "/*"
 			route = "/" + route
 		}
+		preToks := ""
+		if c.Pre == "add" || c.Pre == "remove" {
+			var mw echo.MiddlewareFunc
+			mw, preToks, _, _ = c17Slash(c.Pre, c, path)
+			e.Pre(mw)
+			tags = append(tags, "pre:"+c.Pre)
+		}
 		e.Use(func(next echo.HandlerFunc) echo.HandlerFunc {
 			return func(ctx echo.Context) error {
 				// (for a method the route is not registered for, Path() is the request path)
@@ -275,16 +352,78 @@ func c17Run(ci any) (res Result) {
 				return next(ctx)
 			}
 		})
-		if c.Comp == "static" {
-			e.Static(c.Prefix, dir)
+		disable := false
+		var g *echo.Group
+		if c.Comp == "gstatic" {
+			g = e.Group(c.Group)
+		}
+		regFS := func(fsys fs.FS) {
+			if g != nil {
+				g.StaticFS(c.Prefix, fsys)
+			} else {
+				e.StaticFS(c.Prefix, fsys)
+			}
+		}
+		switch c.Variant {
+		case "":
+			if g != nil {
+				g.Static(c.Prefix, dir)
+			} else {
+				e.Static(c.Prefix, dir)
+			}
+		case "rel":
+			// a root relative to the working directory (what `e.Static("/", "public")` is)
+			rel := dir
+			if wd, err := os.Getwd(); err == nil {
+				if r, err := filepath.Rel(wd, dir); err == nil {
+					rel = r
+				}
+			}
+			if g != nil {
+				g.Static(c.Prefix, rel)
+			} else {
+				e.Static(c.Prefix, rel)
+			}
+		case "fs":
+			regFS(os.DirFS(dir))
+		case "subfs":
+			regFS(echo.MustSubFS(os.DirFS(root), fmt.Sprintf("t%d", ti)))
+		case "mapfs":
+			regFS(c17MapFS(ti))
+		case "handler", "raw":
+			disable = c.Variant == "raw"
+			h := echo.StaticDirectoryHandler(os.DirFS(dir), disable)
+			switch {
+			case g != nil && disable:
+				g.Add(http.MethodGet, c.Prefix+"*", h)
+			case g != nil:
+				g.GET(c.Prefix+"*", h)
+			case disable:
+				e.Add(http.MethodGet, c.Prefix+"*", h)
+			default:
+				e.GET(c.Prefix+"*", h)
+			}
+		default:
+			return Result{Oracle: "harness: unknown variant " + c.Variant}
+		}
+		tags = append(tags, "variant:"+c.Variant)
+		if strings.Contains(route, ":") {
+			tags = append(tags, "mount:below-path-parameter")
+		} else if route != "/*" {
+			tags = append(tags, "mount:below-literal-prefix")
 		} else {
-			e.Group(c.Group).Static(c.Prefix, dir)
+			tags = append(tags, "mount:root")
 		}
 		e.ServeHTTP(rec, req)
-		if routed {
-			t := c17Trees[ti]
-			ops = wJoin("S", wStrs(t.dirs), wStrs(t.files), wStr(param), wStr(path))
-		} else {
+		t := c17Trees[ti]
+		switch {
+		case preToks != "" && method == http.MethodGet:
+			ops = wJoin("P", preToks, wStr(path), wStr(qs), wStr(c17ReqURI), wBool(disable), wStrs(t.dirs), wStrs(t.files), wBool(routed), wStr(param))
+		case preToks != "":
+			tags = append(tags, "static:pre-non-GET(oracle only)")
+		case routed:
+			ops = wJoin("S", wBool(disable), wStrs(t.dirs), wStrs(t.files), wStr(param), wStr(path))
+		default:
 			tags = append(tags, "static:not-routed")
 		}
 	default:
@@ -307,6 +446,12 @@ func c17Run(ci any) (res Result) {
 	case status >= 300 && status < 400:
 		obs = wJoin("R", wInt(status), wStr(loc), wBool(pathAbs), wBool(!scheme && !authority))
 		tags = append(tags, "redirect", "redirect:"+c.Comp)
+		if (c.Comp == "static" || c.Comp == "gstatic") && strings.Contains(c.Group+c.Prefix, ":") {
+			tags = append(tags, "redirect:mount-below-path-parameter")
+		}
+		if c.Pre != "" {
+			tags = append(tags, "redirect:with-pre-middleware")
+		}
 		if method != http.MethodGet {
 			tags = append(tags, "redirect:non-GET")
 		}
@@ -354,7 +499,7 @@ func c17Run(ci any) (res Result) {
 		if qs != "" {
 			q = "?" + qs
 		}
-		validCode := c.Code >= 300 && c.Code <= 308
+		validCode := effCode >= 300 && effCode <= 308
 		want, change := "", false
 		if c.Comp == "add" && c17Ordinary(path) && !strings.HasSuffix(path, "/") {
 			want, change = path+"/", true
@@ -362,14 +507,17 @@ func c17Run(ci any) (res Result) {
 		if c.Comp == "remove" && strings.HasSuffix(path, "/") && c17Ordinary(strings.TrimSuffix(path, "/")) {
 			want, change = strings.TrimSuffix(path, "/"), true
 		}
-		if change {
+		if skipped {
+			// the Skipper took the request out of the middleware's hands: no target to speak of
+			// (what must happen — nothing — is part of the comparison with the model)
+		} else if change {
 			tags = append(tags, "ordinary-change")
 			switch {
 			case validCode:
 				// (the property fixes the target, not which 3xx code carries it; the configured
 				// code is part of the comparison with the model)
 				if !isRedirect || loc != want+q {
-					fail("ordinary path %q: expected a redirect (%d) with Location %q, got status %d Location %q", path, c.Code, want+q, status, loc)
+					fail("ordinary path %q: expected a redirect (%d) with Location %q, got status %d Location %q", path, effCode, want+q, status, loc)
 				}
 			case c.Code == 0:
 				if !nextRan || nextPath != want || nextURI != want+q {
@@ -447,7 +595,33 @@ var (
 	c17Codes   = []int{301, 301, 301, 302, 302, 307, 308, 308, 303, 300, 304, 305, 306, 0, 0, 0, 299, 309, 200, 1}
 )
 
-func c17GenPath(r *rand.Rand, base string, wantDir bool) (dec, enc string) {
+// c17ParamSegs: what a client puts where the mount point has a path parameter (`/:site/*`): the
+// router matches on the escaped path, so an escaped slash or backslash stays inside the segment
+var c17ParamSegs = []c17Tok{{"acme", "acme"}, {"acme", "acme"}, {"example.com", "example.com"},
+	{"\\example.com", "%5Cexample.com"}, {"\\example.com", "%5cexample.com"}, {"\\example.com", "\\example.com"},
+	{"/example.com", "%2Fexample.com"}, {"/example.com", "%2fexample.com"}, {"\t\\example.com", "%09%5Cexample.com"},
+	{"\\\t\\example.com", "%5C%09%5Cexample.com"}, {"\n/evil.com", "%0A%2Fevil.com"}, {"\\", "%5C"}, {"/", "%2F"},
+	{"\t", "%09"}, {"\r\n", "%0d%0a"}, {" ", "%20"}, {"", ""}, {"\\evil.com:80", "%5Cevil.com:80"}, {"a", "a"}, {"s", "s"}}
+
+// c17Instantiate replaces every `:name` segment of a mount pattern (without the leading "/")
+func c17Instantiate(r *rand.Rand, pattern string) (dec, enc string) {
+	if pattern == "" {
+		return "", ""
+	}
+	segs := strings.Split(pattern, "/")
+	ds, es := make([]string, len(segs)), make([]string, len(segs))
+	for i, sg := range segs {
+		if strings.HasPrefix(sg, ":") {
+			t := c17Pick(r, c17ParamSegs)
+			ds[i], es[i] = t.dec, t.enc
+		} else {
+			ds[i], es[i] = sg, sg
+		}
+	}
+	return strings.Join(ds, "/"), strings.Join(es, "/")
+}
+
+func c17GenPath(r *rand.Rand, base, baseEnc string, wantDir bool) (dec, enc string) {
 	var d, en strings.Builder
 	add := func(t c17Tok) { d.WriteString(t.dec); en.WriteString(t.enc) }
 	// first character
@@ -458,8 +632,8 @@ func c17GenPath(r *rand.Rand, base string, wantDir bool) (dec, enc string) {
 	} else {
 		add(c17Tok{"/", "/"})
 	}
-	if base != "" {
-		add(c17Tok{base, base})
+	if base != "" || baseEnc != "" {
+		add(c17Tok{base, baseEnc})
 	}
 	// the leading mix
 	n := r.Intn(5)
@@ -527,24 +701,49 @@ func c17GenCase(r *rand.Rand) *c17Case {
 	if k := r.Intn(10); (c.Comp == "add" || c.Comp == "remove") && k < 5 || k < 2 {
 		c.Method = c17Methods[r.Intn(len(c17Methods))]
 	}
-	base := ""
+	base, baseEnc := "", ""
 	wantDir := false
+	slashCfg := func() {
+		c.Code = c17Codes[r.Intn(len(c17Codes))]
+		// the convenience constructors and a Skipper, one case in five
+		switch r.Intn(10) {
+		case 0:
+			c.Ctor = "plain"
+		case 1:
+			c.Skip = 1 + r.Intn(3)
+		}
+	}
+	variant := func() {
+		if r.Intn(2) == 0 {
+			c.Variant = []string{"fs", "subfs", "mapfs", "handler", "raw", "rel"}[r.Intn(6)]
+		}
+		if r.Intn(8) == 0 { // a slash middleware in front of the static route
+			c.Pre = []string{"add", "remove", "remove"}[r.Intn(3)]
+			slashCfg()
+			if r.Intn(3) != 0 { // mostly forwarding, so that the static handler is reached
+				c.Code = 0
+			}
+			c.Method = ""
+		}
+	}
 	switch c.Comp {
 	case "add", "remove":
-		c.Code = c17Codes[r.Intn(len(c17Codes))]
+		slashCfg()
 	case "static":
 		c.Tree = r.Intn(len(c17Trees))
-		c.Prefix = []string{"/", "/", "/", "/s", "/s/", ""}[r.Intn(6)]
-		base = strings.TrimPrefix(c.Prefix, "/")
+		c.Prefix = []string{"/", "/", "/", "/s", "/s/", "", "/:site/", "/:site/assets", "/:site/s/", "/:a/:b/"}[r.Intn(10)]
+		base, baseEnc = c17Instantiate(r, strings.TrimPrefix(c.Prefix, "/"))
 		wantDir = true
+		variant()
 	case "gstatic":
 		c.Tree = r.Intn(len(c17Trees))
-		c.Group = []string{"", "", "/g", "/g"}[r.Intn(4)]
-		c.Prefix = []string{"/", "/", "/s", "/s/"}[r.Intn(4)]
-		base = strings.TrimPrefix(c.Group+c.Prefix, "/")
+		c.Group = []string{"", "", "/g", "/g", "/:site", "/:site", "/:a/:b", "/g/:site"}[r.Intn(8)]
+		c.Prefix = []string{"/", "/", "/s", "/s/", "/:p/"}[r.Intn(5)]
+		base, baseEnc = c17Instantiate(r, strings.TrimPrefix(c.Group+c.Prefix, "/"))
 		wantDir = true
+		variant()
 	}
-	dec, enc := c17GenPath(r, base, wantDir)
+	dec, enc := c17GenPath(r, base, baseEnc, wantDir)
 	if c.Comp == "remove" && r.Intn(2) == 0 {
 		dec += "/"
 		enc += "/"
@@ -566,7 +765,7 @@ func c17GenCase(r *rand.Rand) *c17Case {
 		}
 		var d, en strings.Builder
 		d.WriteString("/" + base)
-		en.WriteString("/" + base)
+		en.WriteString("/" + baseEnc)
 		if base != "" && !strings.HasSuffix(base, "/") && r.Intn(2) == 0 {
 			d.WriteString("/")
 			en.WriteString("/")
@@ -671,6 +870,26 @@ func c17Shrink(ci any) []any {
 		d.Query = ""
 		out = append(out, &d)
 	}
+	if c.Pre != "" {
+		d := *c
+		d.Pre, d.Ctor, d.Skip, d.Code = "", "", 0, 0
+		out = append(out, &d)
+	}
+	if c.Variant != "" {
+		d := *c
+		d.Variant = ""
+		out = append(out, &d)
+	}
+	if c.Ctor != "" {
+		d := *c
+		d.Ctor, d.Code = "", 0
+		out = append(out, &d)
+	}
+	if c.Skip != 0 {
+		d := *c
+		d.Skip = 0
+		out = append(out, &d)
+	}
 	if c.RawPath != "" {
 		d := *c
 		d.RawPath = ""
@@ -730,13 +949,47 @@ func c17Mutate(r *rand.Rand, ci any) []any {
 			out = append(out, &d)
 		}
 	}
+	// a mount point below a path parameter: the hostile value goes where the parameter is
+	if (c.Comp == "static" || c.Comp == "gstatic") && strings.Contains(c.Group+c.Prefix, ":") {
+		pattern := strings.TrimPrefix(c.Prefix, "/")
+		if c.Comp == "gstatic" {
+			pattern = strings.TrimPrefix(c.Group+c.Prefix, "/")
+		}
+		for _, t := range c17ParamSegs {
+			segs := strings.Split(pattern, "/")
+			es := make([]string, len(segs))
+			for i, sg := range segs {
+				if strings.HasPrefix(sg, ":") {
+					segs[i], es[i] = t.dec, t.enc
+				} else {
+					es[i] = sg
+				}
+			}
+			for _, tail := range []string{"", "a", "evil.com", "g"} {
+				dec, enc := "/"+strings.Join(segs, "/"), "/"+strings.Join(es, "/")
+				if tail != "" {
+					if !strings.HasSuffix(dec, "/") {
+						dec, enc = dec+"/", enc+"/"
+					}
+					dec, enc = dec+tail, enc+tail
+				}
+				d := *c
+				d.Method, d.Query, d.Pre = "", "", ""
+				d.Path, d.RawPath = a2bstr(dec), ""
+				if enc != dec {
+					d.RawPath = a2bstr(enc)
+				}
+				out = append(out, &d)
+			}
+		}
+	}
 	return out
 }
 
 func init() {
 	register(&Prop{
 		ID:     "C17",
-		Rule:   "request URLs built from tokens: first char `/` (rarely `\\` or none), optional static route prefix, a leading mix of 0-4 of {/, \\, %2f, %5c, TAB, CR, LF (raw or escaped), other C0 controls, space, DEL, NBSP}, a host-like or tree segment, `..` climbs (plain/escaped) back to a directory for the static components, tails, +/- query; URL.Path/RawPath as a real server would set them when the target parses, set directly otherwise; x {AddTrailingSlash, RemoveTrailingSlash (RedirectCode 300..308, 0 = forward, invalid codes), Echo.Static, Group.Static over two real directory trees} x request method (GET for half of the slash cases and 4/5 of the static cases, else HEAD/POST/PUT/PATCH/DELETE/OPTIONS/PROPFIND/X-CUSTOM/lower-case get; the model ignores the method); one case in eight is a plain path for the 'ordinary paths' clause; plus, exhaustively, every string of length 1-4 over {/, \\, TAB, LF, e} starting with / or \\ through both slash middlewares with and without query (1248 cases). non-trivial = a redirect was produced and the unsanitised target (path±/ + query) would be read by a browser as an authority (another host); distinct = distinct model op lines",
+		Rule:   "request URLs built from tokens: first char `/` (rarely `\\` or none), optional static route prefix, a leading mix of 0-4 of {/, \\, %2f, %5c, TAB, CR, LF (raw or escaped), other C0 controls, space, DEL, NBSP}, a host-like or tree segment, `..` climbs (plain/escaped) back to a directory for the static components, tails, +/- query; URL.Path/RawPath as a real server would set them when the target parses, set directly otherwise; x {AddTrailingSlash, RemoveTrailingSlash (RedirectCode 300..308, 0 = forward, invalid codes; 1 in 10 built with the constructor without config, 1 in 10 with a Skipper: nil-equivalent DefaultSkipper / always / paths containing 'example'), Echo.Static, Group.Static over two real directory trees} x request method (GET for half of the slash cases and 4/5 of the static cases, else HEAD/POST/PUT/PATCH/DELETE/OPTIONS/PROPFIND/X-CUSTOM/lower-case get; the model ignores the method); static routes: mount point below a literal prefix, the root, or a PATH PARAMETER (`/:site/`, `/:site/assets`, `/:a/:b/`, groups `/:site`, `/g/:site`: the parameter segments filled with {acme, \\example.com, %5Cexample.com, %2Fexample.com, %09%5Cexample.com, empty, ...}), half of them registered through another entry point (Static with a relative root, StaticFS with os.DirFS / MustSubFS / fstest.MapFS, GET or Add with StaticDirectoryHandler with and without path unescaping), 1 in 8 with a slash middleware under e.Pre in front of the route (mostly forwarding); one case in eight is a plain path for the 'ordinary paths' clause; plus, exhaustively, every string of length 1-4 over {/, \\, TAB, LF, e} starting with / or \\ through both slash middlewares with and without query (1248 cases). non-trivial = a redirect was produced and the unsanitised target (path±/ + query) would be read by a browser as an authority (another host); distinct = distinct model op lines",
 		New:    func() any { return &c17Case{} },
 		Gen:    c17Gen,
 		Run:    c17Run,
@@ -747,6 +1000,6 @@ func init() {
 			c17Cleanup()
 			return nil
 		},
-		Correspondence: "C17.addSlash / C17.removeSlash / C17.staticDir / C17.sanitizeURI and the spec predicate C17.sameHost (lean/EchoModel/C17.lean) vs middleware.Add/RemoveTrailingSlashWithConfig, echo.StaticDirectoryHandler via Echo.Static / Group.Static, and the harness' WHATWG reading of Location",
+		Correspondence: "C17.runReq = C17.slashMw (the four slash constructors + Skipper) / C17.staticHandler (StaticDirectoryHandler with and without unescaping) / their composition under e.Pre, C17.sanitizeURI and the spec predicate C17.sameHost (lean/EchoModel/C17.lean) vs middleware.AddTrailingSlash / RemoveTrailingSlash (+WithConfig), Echo.Static / Echo.StaticFS / Group.Static / Group.StaticFS / echo.StaticDirectoryHandler at literal, root and path-parameter mount points, and the harness' WHATWG reading of Location",
 	})
 }
